@@ -83,6 +83,38 @@ type conn struct {
 	id     int64
 	cl     *e2e.Client
 	closed bool
+	slot   int64  // the op's numeric-id slot
+	abs    uint32 // the session id the front was made to allocate
+}
+
+// numeric session id of a slot: slot 0 is the largest id (the next allocation wraps and skips
+// 0), positive slots are the small ids after the wrap, negative ones lie just below the top
+func absId(slot int64) uint32 {
+	if slot >= 1 {
+		return uint32(slot)
+	}
+	return uint32(int64(4294967295) + slot)
+}
+
+// unwrap removes the H wrapper of ordinary client operations
+func unwrap(o hx.T) hx.T {
+	if o.Name == "H" {
+		return o.Term(0)
+	}
+	return o
+}
+
+// Wrap puts ordinary client operations into the H constructor of Corr.hop
+func Wrap(ops []hx.T) []hx.T {
+	out := make([]hx.T, len(ops))
+	for i, o := range ops {
+		if o.Name == "HBurst" || o.Name == "H" {
+			out[i] = o
+		} else {
+			out[i] = hx.C("H", o)
+		}
+	}
+	return out
 }
 
 func payloadClass(ev e2e.Event) any {
@@ -97,7 +129,7 @@ func payloadClass(ev e2e.Event) any {
 }
 
 // Exec runs one case.
-func Exec(n *e2e.Node, ops []hx.T) (obs any, nontrivial bool, err error) {
+func Exec(n *e2e.Node, ops []hx.T) (obs any, nontrivial bool, xtags []string, err error) {
 	conns := map[int64]*conn{}
 	var order []int64
 	open := func() []*e2e.Client {
@@ -110,35 +142,108 @@ func Exec(n *e2e.Node, ops []hx.T) (obs any, nontrivial bool, err error) {
 		return l
 	}
 	n.TakeLog()
+	type watch struct {
+		stop, done chan struct{}
+		max, cap   int
+	}
+	var watches []*watch
 	defer func() {
+		// no session of this case may survive into the next one (ids are reused on purpose)
 		for _, c := range conns {
 			if !c.closed {
-				c.cl.Close()
+				c.cl.NetId = c.abs
+				if e := n.CloseAndWait(c.cl); e != nil && err == nil {
+					err = e
+				}
 			}
 		}
-		if err == nil {
-			err = n.Settle()
+		if e := n.Settle(); e != nil && err == nil {
+			err = e
 		}
 	}()
+	var lastAbs uint32
 	for _, o := range ops {
+		o = unwrap(o)
 		switch o.Name {
 		case "OConnect":
-			id := o.Int(0)
+			id, slot := o.Int(0), o.Int(2)
 			if conns[id] != nil {
 				continue
 			}
+			live := false
+			for _, c := range conns {
+				if !c.closed && c.slot == slot {
+					live = true // the allocator never hands out the id of a live connection
+				}
+			}
+			if live {
+				continue
+			}
+			abs := absId(slot)
+			if !(abs == 1 && lastAbs == 4294967295) { // else: let the allocator wrap and skip 0 itself
+				if e := n.SetNextSessionId(abs); e != nil {
+					return nil, false, nil, e
+				}
+			}
+			lastAbs = abs
 			if o.Bool(1) {
 				n.BusyFront(25 * time.Millisecond)
 			}
 			cl, e := e2e.Dial(n.Addr)
 			if e != nil {
-				return nil, false, e
+				return nil, false, nil, e
 			}
-			conns[id] = &conn{id: id, cl: cl}
+			conns[id] = &conn{id: id, cl: cl, slot: slot, abs: abs}
 			order = append(order, id)
 			if !o.Bool(1) {
 				if e := n.Sentinel(cl); e != nil {
-					return nil, false, e
+					return nil, false, nil, e
+				}
+				if cl.NetId != abs {
+					return nil, false, nil, fmt.Errorf("c02: connection got session id %d, wanted %d", cl.NetId, abs)
+				}
+			}
+		case "HBurst":
+			c := conns[o.Int(0)]
+			if c == nil || c.closed {
+				continue
+			}
+			mid0, tag0, pad, nl, nf := o.Int(1), o.Int(2), o.Int(3), o.Int(4), o.Int(5)
+			if e := n.Sentinel(c.cl); e != nil {
+				return nil, false, nil, e
+			}
+			sess, e := n.ClientSessionOf(c.cl.NetId)
+			if e != nil {
+				return nil, false, nil, e
+			}
+			w := &watch{stop: make(chan struct{}), done: make(chan struct{})}
+			watches = append(watches, w)
+			go func() {
+				w.max, w.cap = n.WatchSendQueue(sess, w.stop)
+				close(w.done)
+			}()
+			c.cl.Stall(1500 * time.Millisecond)
+			for i := int64(0); i < nl+nf; i++ {
+				route := "gate.h.big"
+				if i >= nl {
+					route = "room.h.big"
+				}
+				pl, _ := json.Marshal(map[string]any{"T": tag0 + i, "Pad": pad})
+				if e := c.cl.Request(uint64(mid0+i), route, pl); e != nil {
+					return nil, false, nil, e
+				}
+			}
+			// let the client resume reading and swallow the backlog before anything else is asked of
+			// this connection: the driver's own sentinel must not depend on a full send queue
+			stallEnd := time.Now().Add(1500 * time.Millisecond)
+			for idle := 0; idle < 3 && time.Now().Before(stallEnd.Add(10*time.Second)); {
+				before := c.cl.Count()
+				time.Sleep(100 * time.Millisecond)
+				l, _, ok := n.SendQueueLen(sess)
+				if time.Now().After(stallEnd) && c.cl.Count() == before && (!ok || l == 0) {
+					idle++
+				} else {
+					idle = 0
 				}
 			}
 		case "OReq":
@@ -148,7 +253,7 @@ func Exec(n *e2e.Node, ops []hx.T) (obs any, nontrivial bool, err error) {
 			}
 			rt, pl := routeAndPayload(o.Term(2), o.Int(3))
 			if e := c.cl.Request(hx.U64(o.Args[1]), rt, pl); e != nil {
-				return nil, false, e
+				return nil, false, nil, e
 			}
 		case "ONotify":
 			c := conns[o.Int(0)]
@@ -157,11 +262,11 @@ func Exec(n *e2e.Node, ops []hx.T) (obs any, nontrivial bool, err error) {
 			}
 			rt, pl := routeAndPayload(o.Term(1), o.Int(2))
 			if e := c.cl.Notify(rt, pl); e != nil {
-				return nil, false, e
+				return nil, false, nil, e
 			}
 		case "OAdvance":
 			if e := n.Advance(open()); e != nil {
-				return nil, false, e
+				return nil, false, nil, e
 			}
 		case "OClose":
 			c := conns[o.Int(0)]
@@ -169,19 +274,28 @@ func Exec(n *e2e.Node, ops []hx.T) (obs any, nontrivial bool, err error) {
 				continue
 			}
 			if e := n.Drain(open()); e != nil {
-				return nil, false, e
+				return nil, false, nil, e
 			}
 			if e := n.CloseAndWait(c.cl); e != nil {
-				return nil, false, e
+				return nil, false, nil, e
 			}
 			c.closed = true
 		default:
-			return nil, false, fmt.Errorf("c02: unknown op %s", o.Name)
+			return nil, false, nil, fmt.Errorf("c02: unknown op %s", o.Name)
 		}
 	}
 	// quiescence: everything in flight delivered, every timeout crossed, every byte read
 	if e := n.Advance(open()); e != nil {
-		return nil, false, e
+		return nil, false, nil, e
+	}
+	for _, w := range watches {
+		close(w.stop)
+		<-w.done
+		if w.cap > 0 && w.max >= w.cap {
+			xtags = append(xtags, "send-queue-filled")
+		} else {
+			xtags = append(xtags, fmt.Sprintf("send-queue-max-%dk", w.max/1000))
+		}
 	}
 	perConn := []any{}
 	sort.Slice(order, func(i, j int) bool { return order[i] < order[j] })
@@ -227,7 +341,7 @@ func Exec(n *e2e.Node, ops []hx.T) (obs any, nontrivial bool, err error) {
 	for _, iv := range log {
 		hl = append(hl, hx.Pair{A: iv.Inst, B: iv.T})
 	}
-	return hx.Pair{A: perConn, B: hl}, nontrivial, nil
+	return hx.Pair{A: perConn, B: hl}, nontrivial, xtags, nil
 }
 
 func Run(cfg *hx.Config) error {
@@ -237,7 +351,9 @@ func Run(cfg *hx.Config) error {
 	}
 	nbroken := 0
 	emit := func(kind string, ops []hx.T, tags []string) error {
-		obs, nt, err := Exec(n, ops)
+		ops = Wrap(ops)
+		obs, nt, xt, err := Exec(n, ops)
+		tags = append(append([]string{}, tags...), xt...)
 		note := ""
 		if err != nil {
 			// the implementation stopped answering (a sentinel or barrier timed out): emit an
@@ -265,7 +381,7 @@ func Run(cfg *hx.Config) error {
 		}
 		return nil
 	}
-	for _, ops := range fixedCases() {
+	for _, ops := range fixedCases(cfg.Tier) {
 		if err := emit("fixed", ops, nil); err != nil {
 			return err
 		}
